@@ -16,7 +16,13 @@
 // is compared on the wire — action sequence and close deadline — with a control: the same bytes
 // with one MAC bit flipped, delivered the same way to the same bridge ("treated exactly like an
 // invalid handshake"). Replays and controls are tied to the WrapConn machine of the model
-// (conn.run: C04.replay_is_invalid says a replay takes the failure path of C03). (The 3 h expiry of filter entries cannot be waited for: that part is carried by the
+// (conn.run: C04.replay_is_invalid says a replay takes the failure path of C03). Further families:
+// the filter at the edge of the property's hypothesis (G accepted as the eldest entry, filled through
+// the read-only hook to cap-2 / cap-1 remembered values: replays of G rejected; from cap on the model
+// decides); rounds of 16 DISTINCT fresh handshakes released together, then replays of an older one
+// and of a sample (all rejected, filter size = number accepted); 16-way bursts of one blob on a
+// bridge that remembers nothing (regression of the repaired defect concurrent-replay-on-empty-filter:
+// before 'fix: replayfilter: read the clock under the lock …' about 1 % of such rounds showed 2 successes). (The 3 h expiry of filter entries cannot be waited for: that part is carried by the
 // theorem C04.at_most_once and C11's own tie.)
 package main
 
@@ -47,6 +53,8 @@ type op struct {
 	Of      int    `json:"of"`           // replay/burst: index of the earlier op whose bytes are resubmitted (-1: burst of a fresh blob)
 	Cuts    []int  `json:"cuts,omitempty"`
 	SrvSeed uint64 `json:"srv_seed"`
+	N       int    `json:"n,omitempty"` // fill: number of direct TestAndSet calls with fresh random values; cburst: number of distinct handshakes
+	M       int    `json:"m,omitempty"` // replay of a cburst: which member
 }
 
 type history struct {
@@ -96,6 +104,26 @@ func serverTape(seed uint64) []byte {
 
 // burst: n goroutines submit the same bytes to the factory at the same time.
 func burst(sf base.ServerFactory, blob []byte, n int) (okCount int, written int, wires [][]byte, classes []string, h0, h1 int64) {
+	blobs := make([][]byte, n)
+	for i := range blobs {
+		blobs[i] = blob
+	}
+	oks, ws, h0, h1 := burstOf(sf, blobs)
+	for i, ok := range oks {
+		written += len(ws[i])
+		if ok {
+			okCount++
+			wires = append(wires, ws[i])
+		}
+	}
+	return
+}
+
+// burstOf: one goroutine per blob, all released at the same instant.
+func burstOf(sf base.ServerFactory, blobs [][]byte) (oks []bool, wires [][]byte, h0, h1 int64) {
+	n := len(blobs)
+	oks = make([]bool, n)
+	wires = make([][]byte, n)
 	srvh.WrapMu.Lock()
 	defer srvh.WrapMu.Unlock()
 	o4h.Tape.Steer = nil
@@ -108,24 +136,21 @@ func burst(sf base.ServerFactory, blob []byte, n int) (okCount int, written int,
 	var spin int32
 	conns := make([]*srvh.Conn, n)
 	for i := 0; i < n; i++ {
+		blob := blobs[i]
 		c := srvh.NewConn([]srvh.Step{{K: "c", B: blob[:len(blob)-1]}, {K: "g"}, {K: "c", B: blob[len(blob)-1:]}})
 		c.Gate = gate
 		c.Spin = &spin
 		conns[i] = c
 		wg.Add(1)
-		go func() {
+		go func(i int) {
 			defer wg.Done()
 			_, err := sf.WrapConn(c)
 			w := c.ScriptConn.TakeWritten()
 			mu.Lock()
 			defer mu.Unlock()
-			classes = append(classes, o4h.ErrClass(err))
-			written += len(w)
-			if err == nil {
-				okCount++
-				wires = append(wires, w)
-			}
-		}()
+			oks[i] = err == nil
+			wires[i] = w
+		}(i)
 	}
 	for _, c := range conns {
 		<-c.AtGate
@@ -200,6 +225,7 @@ func runHistory(w *worker, h history) bool {
 	_, filter, hok := obfs4.VerifServerFactoryState(sf)
 	hour := o4h.Hour()
 	subs := make([]sub, len(h.Ops))
+	var allSubs []sub
 	accepted := map[string]int{} // S bookkeeping: bytes -> times accepted
 	submitted := map[string]bool{}
 	type rec struct {
@@ -210,12 +236,23 @@ func runHistory(w *worker, h history) bool {
 		blob  []byte
 		exp   string // S expectation: accept | reject
 		burst bool
+		empty bool // burst: nothing at all was remembered by the bridge when it was submitted
 		nOK   int
 		wires [][]byte
 		now   int64 // time of the replay-filter submission handed to the model (0: StartNs+1000)
+		fill  bool
+		flen  int     // fill: entries the real filter holds afterwards
+		cb    []sub   // cburst: the distinct handshakes
+		cbOK  []bool  // cburst: accepted?
+		cbW   [][]byte
+		over  bool // S: the property's hypothesis "fewer than maxFilterSize remembered" no longer holds here
 		ctl   *srvh.Result // replay ops: the same bridge on a plain invalid handshake of the same length and chunking
 	}
 	var recs []rec
+	cbs := map[int][]sub{}  // members of the cburst ops
+	remembered := 0         // S bookkeeping: handshakes accepted + values filled in so far (no expiry inside a run)
+	maxFilter := 0
+	fmt.Sscan(replayfilter.VerifConstants()["maxFilterSize"], &maxFilter)
 	var closeLo, closeHi time.Duration // running intersection of the close-deadline intervals of this bridge
 	var haveClose bool
 	// connections that were accepted and sit in Read one byte short of their handshake
@@ -227,6 +264,50 @@ func runHistory(w *worker, h history) bool {
 	}()
 	for i, o := range h.Ops {
 		rng := vlib.NewRng(o.Seed)
+		if o.Kind == "fill" {
+			if !hok {
+				continue
+			}
+			for k := 0; k < o.N; k++ {
+				filter.TestAndSet(time.Now(), rng.Bytes(16))
+			}
+			_, fl := replayfilter.VerifLen(filter)
+			remembered += o.N
+			recs = append(recs, rec{i: i, fill: true, flen: fl, now: srvh.NowNs(),
+				desc: fmt.Sprintf("bridge seed %d, op #%d fill of %d fresh values", h.IdSeed, i, o.N)})
+			continue
+		}
+		if o.Kind == "cburst" {
+			var members []sub
+			var blobs [][]byte
+			for k := 0; k < o.N; k++ {
+				m := sub{cli: w.ref.Fresh("c"), off: vlib.Pick(rng, []int{-1, 0, 0, 1})}
+				rep := w.ref.CliNew(m.cli, id.NodeID, id.Pub, srvh.ClientTape(rng, vlib.Pick(rng, keySeeds), rng.Range(77, 160)), hour+int64(m.off))
+				if rep.Class != "ok" {
+					violate("probe-build", "correspondence", "reference client: "+rep.Raw, h, i, w)
+					return true
+				}
+				m.blob = rep.Data
+				members = append(members, m)
+				blobs = append(blobs, m.blob)
+				submitted[string(m.blob)] = true
+			}
+			cbs[i] = members
+			allSubs = append(allSubs, members...)
+			oks, ws, h0, h1 := burstOf(sf, blobs)
+			if h0 != hour || h1 != hour {
+				return false
+			}
+			over := remembered+o.N >= maxFilter
+			for _, ok := range oks {
+				if ok {
+					remembered++
+				}
+			}
+			recs = append(recs, rec{i: i, cb: members, cbOK: oks, cbW: ws, over: over, res: srvh.Result{StartNs: srvh.NowNs()},
+				desc: fmt.Sprintf("bridge seed %d, op #%d: %d DISTINCT fresh handshakes submitted simultaneously", h.IdSeed, i, o.N)})
+			continue
+		}
 		var s sub
 		switch {
 		case o.Kind == "fresh" || o.Kind == "stall" || (o.Kind == "burst" && o.Of < 0):
@@ -244,6 +325,13 @@ func runHistory(w *worker, h history) bool {
 				return true
 			}
 			s = subs[o.Of]
+			if ms, ok := cbs[o.Of]; ok {
+				if o.M < 0 || o.M >= len(ms) {
+					violate("probe-build", "correspondence", "bad history recipe", h, i, w)
+					return true
+				}
+				s = ms[o.M]
+			}
 		}
 		subs[i] = s
 		if o.Kind == "stall" {
@@ -276,15 +364,21 @@ func runHistory(w *worker, h history) bool {
 				return false
 			}
 			recs = append(recs, rec{i: i, desc: desc + fmt.Sprintf(" [accepted %.1f ms before its handshake completed]", float64(gateNs-res.StartNs)/1e6),
-				class: res.ErrClass, res: res, blob: s.blob, exp: exp, now: gateNs})
+				class: res.ErrClass, res: res, blob: s.blob, exp: exp, now: gateNs, over: remembered >= maxFilter})
+			if res.ErrClass == "ok" {
+				remembered++
+			}
 		} else if o.Kind == "burst" {
 			nOK, written, wires, classes, h0, h1 := burst(sf, s.blob, 16)
 			if h0 != hour || h1 != hour {
 				return false
 			}
 			_ = classes
-			recs = append(recs, rec{i: i, desc: desc, blob: s.blob, exp: exp, burst: true, nOK: nOK, wires: wires,
+			recs = append(recs, rec{i: i, desc: desc, blob: s.blob, exp: exp, burst: true, empty: remembered == 0, nOK: nOK, wires: wires, over: remembered >= maxFilter,
 				res: srvh.Result{Written: written, StartNs: srvh.NowNs()}})
+			if nOK > 0 {
+				remembered++ // one byte string occupies one entry, however often it got through
+			}
 		} else {
 			var st []srvh.Step
 			for _, c := range o4h.Split(s.blob, o.Cuts) {
@@ -294,7 +388,10 @@ func runHistory(w *worker, h history) bool {
 			if res.Hour0 != hour || res.Hour1 != hour {
 				return false
 			}
-			rc := rec{i: i, desc: desc, class: res.ErrClass, res: res, blob: s.blob, exp: exp}
+			rc := rec{i: i, desc: desc, class: res.ErrClass, res: res, blob: s.blob, exp: exp, over: remembered >= maxFilter}
+			if res.ErrClass == "ok" {
+				remembered++
+			}
 			if o.Kind == "replay" {
 				// control: the same bytes with one MAC bit flipped (a plain invalid handshake),
 				// delivered the same way to the same bridge
@@ -326,13 +423,56 @@ func runHistory(w *worker, h history) bool {
 		r.Case(string(kj), true)
 		r.Count("op", o.Kind)
 		r.Count("hour_offset", fmt.Sprintf("%+d", subs[rc.i].off))
+		if rc.fill {
+			n, how := w.srv.FacFill(fname, rc.now, o.N)
+			r.Count("impl_outcome", "fill("+how+")")
+			if n != rc.flen {
+				violate("replay-filter-size-differs", "correspondence",
+					fmt.Sprintf("after the fill the replay filter holds %d entries, the model %d (%s) | %s", rc.flen, n, how, rc.desc), h, rc.i, w)
+			}
+			continue
+		}
+		if rc.cb != nil {
+			nOK := 0
+			for k, m := range rc.cb {
+				if rc.cbOK[k] {
+					nOK++
+					accepted[string(m.blob)]++
+					if k < 2 {
+						if rep := w.ref.CliFeed(m.cli, rc.cbW[k]); rep.Class != "ok" {
+							violate("answer-rejected-by-reference-client", "impl-oracle",
+								fmt.Sprintf("the reference client does not accept the server's answer: %s | %s", rep.Raw, rc.desc), h, rc.i, w)
+						}
+					}
+				}
+				// model: the same handshakes one after the other (any order gives the same verdicts)
+				ma := w.srv.Acc(fname, rc.res.StartNs, serverTape(o.SrvSeed+uint64(k)), m.blob, hour, rc.res.StartNs+int64(k))
+				if (ma.Class == "ok") != rc.cbOK[k] && !rc.over {
+					violate("model-impl-disagree/concurrent-distinct", "correspondence",
+						fmt.Sprintf("member %d: model %s, implementation accepted=%v | %s", k, ma.Class, rc.cbOK[k], rc.desc), h, rc.i, w)
+				}
+			}
+			r.Count("impl_outcome", fmt.Sprintf("cburst:%d-of-%d", nOK, len(rc.cb)))
+			if nOK != len(rc.cb) {
+				violate("concurrent-fresh-rejected", "impl-oracle",
+					fmt.Sprintf("only %d of %d distinct fresh in-window handshakes submitted simultaneously were accepted | %s", nOK, len(rc.cb), rc.desc), h, rc.i, w)
+			}
+			r.Validated(len(rc.cb))
+			continue
+		}
 		if rc.burst {
 			r.Count("impl_outcome", fmt.Sprintf("burst:%d-of-16", rc.nOK))
 			want := 0
 			if rc.exp == "accept" {
 				want = 1
 			}
-			if rc.nOK != want {
+			if rc.empty && rc.nOK > 1 {
+				// the caller reads time.Now() before TestAndSet takes the lock: on an EMPTY (or fully
+				// expired) filter the later locker with the earlier reading sees the entry just made
+				// as "from the future", the filter is reset and its own identical MAC is new again
+				violate("concurrent-replay-on-empty-filter", "impl-oracle",
+					fmt.Sprintf("%d of 16 simultaneous submissions of one blob to a bridge that remembers nothing yet succeeded, expected 1 | %s", rc.nOK, rc.desc), h, rc.i, w)
+			} else if rc.nOK != want {
 				violate("concurrent-submissions", "impl-oracle",
 					fmt.Sprintf("%d of 16 simultaneous submissions of one blob succeeded, expected %d | %s", rc.nOK, want, rc.desc), h, rc.i, w)
 			}
@@ -371,7 +511,11 @@ func runHistory(w *worker, h history) bool {
 			got = "accept"
 			accepted[key]++
 		}
-		if accepted[key] > 1 {
+		if rc.over {
+			// maxFilterSize or more values are being remembered: outside the property's hypothesis,
+			// the model alone decides (the eldest entry may legitimately have been evicted)
+			r.Count("impl_outcome", "at-or-over-capacity:"+rc.class)
+		} else if accepted[key] > 1 {
 			violate("handshake-accepted-twice", "impl-oracle", "a byte-identical client handshake was accepted a second time | "+rc.desc+" | "+rc.res.Render(), h, rc.i, w)
 		} else if got != rc.exp {
 			sig := "fresh-in-window-rejected"
@@ -461,9 +605,13 @@ func runHistory(w *worker, h history) bool {
 			violate("replay-filter-size-differs", "correspondence",
 				fmt.Sprintf("replay filter holds %d/%d entries, model %d", ml, fl, mlen), h, len(h.Ops)-1, w)
 		}
+		if remembered < maxFilter && fl != remembered {
+			violate("filter-forgot-accepted-handshakes", "impl-oracle",
+				fmt.Sprintf("%d handshakes/values were accepted into the replay filter (all well inside the TTL, below capacity) but it remembers %d", remembered, fl), h, len(h.Ops)-1, w)
+		}
 		r.Count("filter_entries_at_end", fmt.Sprintf("%d0..%d9", fl/10, fl/10))
 	}
-	for _, s := range subs {
+	for _, s := range append(subs, allSubs...) {
 		if s.cli != "" {
 			w.ref.Drop(s.cli)
 		}
@@ -565,6 +713,59 @@ func genHistory(rng *vlib.Rng, n int) history {
 	return h
 }
 
+func freshOp(rng *vlib.Rng, off int) op {
+	return op{Kind: "fresh", Seed: rng.U64(), KeySeed: hex.EncodeToString(vlib.Pick(rng, keySeeds)), PadLen: rng.Range(77, 300), Off: off, Of: -1, SrvSeed: rng.U64()}
+}
+
+// genCapHistory: at-most-once at the edge of the property's hypothesis "fewer than maxFilterSize
+// handshakes are being remembered". G is accepted first (the ELDEST entry), the filter is filled
+// through the hook to exactly cap-2 and then cap-1 remembered values: a replay of G must still be
+// rejected at both levels. One more fresh handshake makes it cap: from there on the model alone
+// decides (the forced eviction takes the eldest entry, G).
+func genCapHistory(rng *vlib.Rng, maxFilter int) history {
+	h := history{IdSeed: rng.U64()}
+	add := func(o op) int { h.Ops = append(h.Ops, o); return len(h.Ops) - 1 }
+	g := add(freshOp(rng, vlib.Pick(rng, []int{0, 0, -1, 1})))
+	rep := func(of int) { add(op{Kind: "replay", Of: of, SrvSeed: rng.U64()}) }
+	add(op{Kind: "fill", Seed: rng.U64(), N: maxFilter - 2 - 1, Of: -1})
+	rep(g) // cap-2 remembered
+	if rng.Intn(2) == 0 {
+		f := add(freshOp(rng, 0)) // cap-1 remembered
+		rep(g)
+		rep(f)
+	} else {
+		add(op{Kind: "fill", Seed: rng.U64(), N: 1, Of: -1}) // cap-1 remembered
+		rep(g)
+	}
+	f2 := add(freshOp(rng, 0)) // cap remembered: the hypothesis ends here
+	rep(f2)
+	rep(g) // full: the eldest entry is evicted before the lookup — the model decides
+	f3 := add(freshOp(rng, 0))
+	rep(f3)
+	rep(g)
+	return h
+}
+
+// genConcHistory: one accepted handshake G, then rounds of DISTINCT fresh handshakes submitted
+// simultaneously (16 goroutines released together), then replays of G and of a sample of them.
+func genConcHistory(rng *vlib.Rng, rounds int) history {
+	h := history{IdSeed: rng.U64()}
+	add := func(o op) int { h.Ops = append(h.Ops, o); return len(h.Ops) - 1 }
+	g := add(freshOp(rng, 0))
+	var cbs []int
+	for k := 0; k < rounds; k++ {
+		cbs = append(cbs, add(op{Kind: "cburst", Seed: rng.U64(), N: 16, Of: -1, SrvSeed: rng.U64()}))
+		if k%4 == 3 {
+			add(op{Kind: "replay", Of: g, SrvSeed: rng.U64()})
+		}
+	}
+	add(op{Kind: "replay", Of: g, SrvSeed: rng.U64()})
+	for k := 0; k < 6; k++ {
+		add(op{Kind: "replay", Of: vlib.Pick(rng, cbs), M: rng.Intn(16), SrvSeed: rng.U64()})
+	}
+	return h
+}
+
 func main() {
 	r = vlib.NewRun("C04")
 	for k, v := range obfs4.VerifConstants() {
@@ -606,6 +807,27 @@ func main() {
 	nH := r.Scale(40, 450)
 	for i := 0; i < nH; i++ {
 		hs = append(hs, genHistory(rng.Fork(), rng.Range(15, 40)))
+	}
+	maxFilter := 0
+	fmt.Sscan(replayfilter.VerifConstants()["maxFilterSize"], &maxFilter)
+	if maxFilter > 16 {
+		for i, n := 0, r.Scale(2, 8); i < n; i++ {
+			hs = append(hs, genCapHistory(rng.Fork(), maxFilter))
+		}
+	}
+	rounds := 10
+	if r.Mode == "search" {
+		rounds = 40
+	}
+	for i, n := 0, r.Scale(2, 10); i < n; i++ {
+		hs = append(hs, genConcHistory(rng.Fork(), rounds))
+	}
+	// 16 simultaneous submissions of one fresh blob to a bridge that remembers nothing yet
+	for i, n := 0, r.Scale(150, 1200); i < n; i++ {
+		fr := rng.Fork()
+		o := freshOp(fr, 0)
+		o.Kind, o.PadLen = "burst", fr.Range(77, 120)
+		hs = append(hs, history{IdSeed: fr.U64(), Ops: []op{o}})
 	}
 	ch := make(chan history)
 	var wg sync.WaitGroup
